@@ -265,8 +265,10 @@ def r6_fetch_queue(ctx):
             ctx.undecided("C04.R6", loc(fi), "cannot name the State object")
             continue
         rows = []
-        for req in ("not_requested", "pending", "fetched"):
-            for queued in (False, True):
+        # reachable rows only: consider_fetch is reached from the *original* publication of a dataset (R10 decides that a transfer confirmation
+        # queues nothing), when the value cannot be there yet and nothing was queued for it — the other combinations are not decided
+        for req in ("not_requested", "pending"):
+            for queued in (False,):
                 env = {f"{b}.outputs": AnyKeyDict(req != "not_requested", None if req == "pending" else "VALUE", "outputs"),
                        f"{b}.fetching_queue": AnyKeyDict(queued, Atom("Hq"), "fetching_queue")}
                 rows.append({"output": req, "already_queued": queued, "env": env})
@@ -276,12 +278,12 @@ def r6_fetch_queue(ctx):
             mode="exact" if q == f"{NOTIFY}.consider_fetch" else "allowed",
             what="queue a fetch iff the dataset is a requested output without value and not queued yet",
             construct="fetching_queue store guard")
-    # provenance of the source host at the call in notify
+    # provenance of the source host at the call in notify: the original publication (by the producing worker) queues the fetch from its own host
     fi = repo.func(f"{NOTIFY}.notify")
     T = Atom("T")
     W = worker("H1")
-    for origin, hostname in ((W, "H1"), (Atom("H2", cls="builtins.str"), "H2")):
-        ev = _event(7 if origin is not W else None, origin, ds("DS", T))
+    for origin, hostname in ((W, "H1"),):
+        ev = _event(None, origin, ds("DS", T))
         env = _notify_state(T, ds("D1", "P1"), ds("D2", "P2"), W)
         ip = Interp(repo, call_models={f"{NOTIFY}.is_last_output_of": lambda *a: False},
                     type_facts={})
@@ -300,6 +302,58 @@ def r6_fetch_queue(ctx):
                               f"consider_fetch is called with {[vkey(x) for x in a[1:]]}, expected the event's dataset and its publishing host {hostname}")
             else:
                 ctx.ok("C04.R6", loc(fi, c.node), f"fetch source = publishing host ({hostname})")
+
+
+def r10_single_fetch(ctx):
+    """C04.R10: a requested output is fetched once.  History on the real notify / flush_queues, each step on the state the previous one
+    left: output D (requested, consumer c on H2) published on H1 and queued -> flush_queues commands the fetch from H1 -> the confirmation
+    that the copy for c arrived on H2 is processed *before* the fetch is answered -> flush_queues.  No second fetch may be commanded: the
+    purge guard releases D as soon as the first value arrived and c completed, so a second fetch (from H2) would still be unanswered when
+    D is dropped on H2 — and a data server asked for a dataset it no longer holds reports a failure that ends a healthy run."""
+    repo = ctx.repo
+    fn = repo.func(f"{NOTIFY}.notify")
+    ff = repo.func(f"{ACT}.flush_queues")
+    ctx.analysed(fn.qual)
+    ctx.analysed(ff.qual)
+    D = ds("D", "T")
+    H1, H2 = Atom("H1"), Atom("H2")
+    W1, W2 = worker(H1), worker(H2)
+    Tc = Atom("c")
+    env = {
+        "state.host2ds": ddict(dict, {H1: {D: st("available")}, H2: {D: st("preparing")}}),
+        "state.ds2host": ddict(dict, {D: {H1: st("available"), H2: st("preparing")}}),
+        "state.outputs": {D: None}, "state.fetching_queue": {D: H1},
+        "state.purging_tracker": {D: {Tc}}, "state.purging_queue": [],
+        "state.edge_i": {Tc: {D}}, "state.edge_o": ddict(set, {D: {Tc}}),
+        "state.worker2ts": ddict(dict), "state.ts2worker": ddict(dict),
+        "state.ongoing": ddict(set, {W2: {Tc}}), "state.idle_workers": set(),
+        "state.ongoing_total": 1, "state.remaining": 1,
+        "state.host2workers": {H1: [W1], H2: [W2]},
+        "state.worker2ds": ddict(dict, {W1: {D: st("available")}}), "state.ds2worker": ddict(dict, {D: {W1: st("available")}}),
+    }
+    INL = {f"{NOTIFY}.consider_purge", f"{NOTIFY}.consider_fetch"}
+
+    def step(fi, env_, args, models=None):
+        ps = [p for p in Interp(repo, call_models=models or {}, inline=INL).explore(fi, env=env_, args=args) if p.exit[0] == "return"]
+        if len(ps) != 1:
+            raise AnalysisError(f"{fi.name} on the model state has {len(ps)} returning paths")
+        return ps[0], {k: v for k, v in ps[0].heap.items() if k.startswith("state.")}
+    fetched = []
+    p, heap = step(ff, env, {})
+    fetched += [tuple(vkey(x) for x in e.data["args"][:2]) for e in p.effects if is_call(e, qual="cascade.executor.bridge.Bridge.fetch")]
+    ev = _event(7, Atom("H2", cls="builtins.str"), D)
+    p, heap = step(fn, heap, {"events": [ev]}, models={f"{NOTIFY}.consider_computable": lambda run, a, k, n, f: a[0]})
+    requeued = vkey(heap.get("state.fetching_queue"))
+    p, heap = step(ff, heap, {})
+    fetched += [tuple(vkey(x) for x in e.data["args"][:2]) for e in p.effects if is_call(e, qual="cascade.executor.bridge.Bridge.fetch")]
+    ctx.evals(3)
+    if len(fetched) != 1:
+        ctx.violation("C04.R10", fn.qual, loc(fn), "a requested output is fetched once",
+                      f"D requested, published on H1, copy for its consumer on its way to H2: flush commands the fetch from H1; the transfer confirmation from H2 arrives "
+                      f"before the value (fetch queue afterwards: {requeued}); the next flush commands {fetched[1:] or 'nothing'} — fetch commands in total {fetched}. The "
+                      f"purge guard waits for one value only: the extra fetch is still unanswered when D is dropped on its source host")
+    else:
+        ctx.ok("C04.R10", loc(fn), f"publish -> fetch from H1 -> transfer confirmation from H2 -> flush: one fetch in total {fetched}")
 
 
 def r7_available_writers(ctx):
@@ -434,7 +488,12 @@ def r9_transfer_on_behalf_of_consumer(ctx):
     D, D2 = ds("D", "P"), ds("D2", "P2")
     H1, H2 = Atom("H1"), Atom("H2")
     W = worker(H1)
-    asg = Obj("cascade.scheduler.core.Assignment", {"worker": W, "tasks": ["t"], "prep": [(D, H2), (D2, H1)], "outputs": set()}, name="ASSIGNMENT")
+    from .common import model_elem
+    prep = [model_elem(repo, "cascade.scheduler.core.Assignment", "prep", (D, H2)), model_elem(repo, "cascade.scheduler.core.Assignment", "prep", (D2, H1))]
+    _ci, _ann = repo.field_ann("cascade.scheduler.core.Assignment", "prep")
+    if _ann is not None and ast.unparse(_ann).startswith(("dict", "Dict")):
+        prep = {D: H2, D2: H1}
+    asg = Obj("cascade.scheduler.core.Assignment", {"worker": W, "tasks": ["t"], "prep": prep, "outputs": set()}, name="ASSIGNMENT")
     for p in Interp(repo).explore(fa, args={"assignment": asg}):
         if p.exit[0] != "return":
             continue
@@ -448,3 +507,4 @@ def r9_transfer_on_behalf_of_consumer(ctx):
 
 
 RULES.append(r9_transfer_on_behalf_of_consumer)
+RULES.append(r10_single_fetch)
